@@ -396,7 +396,10 @@ class C15(CheckBase):
                 pass
             if name not in ("class", "class_module", "filename") and \
                     ch.coin(0.35):
-                fn = ch.pick(["index.pt", "a_rather_long_template_name.pt"])
+                # (the last one: a legal name so long that the entry's name
+                # comes close to the file system's limit)
+                fn = ch.pick(["index.pt", "a_rather_long_template_name.pt",
+                              "x" * 200 + ".pt"])
                 for i, t in enumerate((ta, tb)):
                     t["cls"] = "PageTemplateFile"
                     t["file"] = fn
